@@ -19,6 +19,7 @@ import (
 	sdk "github.com/cosmos/cosmos-sdk/types"
 	"github.com/cosmos/cosmos-sdk/x/authz"
 	stakingtypes "github.com/cosmos/cosmos-sdk/x/staking/types"
+	transfertypes "github.com/cosmos/ibc-go/v7/modules/apps/transfer/types"
 	"github.com/ethereum/go-ethereum/common"
 
 	coinomicstypes "github.com/haqq-network/haqq/x/coinomics/types"
@@ -77,6 +78,17 @@ func NewFixtureOpts(withGrants bool) *Fixture {
 		}
 	}
 	_ = authz.ModuleName
+	if err := w.OpenLocalhostChannels(w.Ctx()); err != nil {
+		panic(err)
+	}
+	for id := 0; id < 3 && withGrants; id++ {
+		grantee := sdk.AccAddress(world.ContractAddr(byte(0x10 + id)).Bytes())
+		ta := &transfertypes.TransferAuthorization{Allocations: []transfertypes.Allocation{{SourcePort: world.IBCPort, SourceChannel: world.IBCChannelA,
+			SpendLimit: sdk.NewCoins(sdk.NewCoin(world.Denom, e17(100000000000)))}}}
+		if err := w.App.AuthzKeeper.SaveGrant(w.Ctx(), grantee, w.Addrs[f.S], ta, &exp); err != nil {
+			panic(err)
+		}
+	}
 	w.NextBlock(6 * time.Second)
 	w.NextBlock(6 * time.Second)
 	f.All = engine.AllStores(w)
@@ -96,6 +108,11 @@ func (f *Fixture) Leaves(frameAddr common.Address) []*calltree.Leaf {
 		{Name: "distribution.setWithdrawAddress(signer)", To: precomp.DistrAddr, Data: precomp.MustPack(di, "setWithdrawAddress", s, w.Addrs[f.Wd].String())},
 		{Name: "distribution.withdrawDelegatorRewards(signer)", To: precomp.DistrAddr, Data: precomp.MustPack(di, "withdrawDelegatorRewards", s, v1)},
 		{Name: "staking.approve(third)", To: precomp.StakingAddr, Data: precomp.MustPack(st, "approve", w.Eth[f.T], big.NewInt(5), []string{"/cosmos.staking.v1beta1.MsgDelegate"})},
+		{Name: "ics20.transfer(signer)", To: precomp.ICS20Addr, Data: precomp.MustPack(f.ABIs.ICS20, "transfer", world.IBCPort, world.IBCChannelA, world.Denom, big.NewInt(100), s,
+			w.Addrs[f.Wd].String(), struct {
+				RevisionNumber uint64
+				RevisionHeight uint64
+			}{3, 100000}, uint64(0), "")},
 		{Name: "bank.totalSupply", To: precomp.BankAddr, Data: precomp.MustPack(bk, "totalSupply")},
 		{Name: "bank.totalSupply", To: precomp.BankAddr, Data: precomp.MustPack(bk, "totalSupply"), Static: true},
 		{Name: "staking.validator", To: precomp.StakingAddr, Data: precomp.MustPack(st, "validator", v1), Static: true},
@@ -400,11 +417,11 @@ func Run(tier string) int {
 	res.Sample(map[string]any{"tree": "F0{S L call!$5(F1{S L pc[staking.delegate(signer)] S';revert}) S';stop}"})
 	return engine.Finish(res, engine.Meta{
 		Property: Prop, Tier: tier, Level: "model_checking", Start: start,
-		Rule: "all call trees of the family: root frame x {no child, child with 3 endings x caught/bubbled x value 0/5} (thorough: + grandchild) x frame endings {STOP, REVERT, INVALID} x one precompile leaf (9 kinds incl. read-only by CALL and STATICCALL, or none) at every position; each tree is synthesised as bytecode and delivered twice (as is / with the failing frames switched off) through the real DeliverTx; all persistent stores, logs and supply compared; non-trivial = tree in which at least one frame fails",
+		Rule: "all call trees of the family: root frame x {no child, child with 3 endings x caught/bubbled x value 0/5} (thorough: + grandchild) x frame endings {STOP, REVERT, INVALID} x one precompile leaf (10 kinds incl. ics20.transfer, read-only by CALL and STATICCALL, or none) at every position; each tree is synthesised as bytecode and delivered twice (as is / with the failing frames switched off) through the real DeliverTx; all persistent stores, logs and supply compared; non-trivial = tree in which at least one frame fails",
 		Assumptions: []string{
 			"gas price 0; the signer's nonce is the only permitted trace of a failed transaction",
 			"the reference execution uses the same bytecode with a storage switch that makes the failing frames revert at entry",
-			"ICS-20 leaves not in the family (no channel fixture)",
+			"ICS-20 leaves run over two transfer channel ends written on ibc-go's sentinel localhost connection",
 		},
 	})
 }
